@@ -589,6 +589,20 @@ def run_views(spec, res):
                 res.label('resident_view')
                 if 'anchor' in vals:
                     res.label('resident_view.anchor_at_depth_%d' % len(path))
+        # ... and so do the compartment's own steps (also a step re-created
+        # under the path of a deleted one)
+        for ev in ctx.log:
+            if ev[0] == 'step' and ev[1] in ('obs', 'obs2', 'der') \
+                    and ev[6] is not None:
+                path, vals = ev[6]
+                want = {'x': vals.get('x', 'MISSING')}
+                if deq(ev[5], want):
+                    res.fail('view.resident_step', 'step %s of %r at t=%r sees '
+                             '%r, its compartment holds %r'
+                             % (ev[1], path, ev[2], ev[5], want),
+                             'engine.py:_process_state')
+                    return
+                res.label('resident_step_view')
         res.nontrivial = bool(op_times) and any(
             len(set(ts)) >= 2 for ts in calls.values())
         if not calls:
